@@ -260,12 +260,10 @@ impl Property for C17 {
                         Ok(())
                     },
                     Ok(Err(e)) => {
-                        let msg = e.to_string();
-                        if msg.starts_with("failed to parse") {
-                            st.count("parse_errors");
-                        }
-                        else if msg.starts_with("malformed") {
-                            st.count("rule_errors");
+                        match e.verif_kind() {
+                            "parse" => st.count("parse_errors"),
+                            "rule" => st.count("rule_errors"),
+                            _ => {},
                         }
                         check_error_spans(text, &e, st)
                     },
